@@ -262,7 +262,10 @@ def rand_char(rng):
 
 ESC_SNIPPETS = ["`CR`", "`LF`", "`CRLF`", "`TAB`", "`SP`", "`BK`", "`U+1F005`", "`U+0`", "`U+41`", "`U+10FFFF`", "`U+0000005C`",
                 "`U+D7FF`", "`U+E000`", "`U+1f600`", "`U+`", "`U+123456789`", "`CRL`", "`TABK`", "`cr`", "``", "`华为`", "`U+FFFD`",
-                "`“`", "`”`", "`「`", "`」`", "`《`", "`》`", "`‘`", "`』`", "`”", "`“abc", "` `", "`\r\n", "`C\n", "`U+4\r"]
+                "`“`", "`”`", "`「`", "`」`", "`《`", "`》`", "`‘`", "`』`", "`”", "`“abc", "` `", "`\r\n", "`C\n", "`U+4\r",
+                # look-alikes of the documented names: full-width and other non-ASCII digits and letters, lower case — kept literally
+                "`U+４１`", "`U+4１`", "`U+０`", "`U+１F005`", "`U+٤١`", "`U+Ａ`", "`U+a`", "`Ｕ+41`", "`U＋41`", "`ＣＲ`", "`ＴＡＢ`", "`ＬＦ`", "`Cr`",
+                "`U+4 1`", "`U+-1`", "`U+110000`", "`U+FFFFFFFF`", "`U+000000041`"]
 
 
 def rand_text(rng, n):
